@@ -161,6 +161,24 @@ func main() {
 			e.Strs("findLIDsOps", ops, "sealedFetchIndex.findLIDs: assignments of left/right/lid/res and conditions, in source order")
 		}
 
+		// ---- List.FilterInRange builds a fresh list (the caller's list is shared by all chunks of a fetch stream)
+		if f, err := r.Load("fracmanager/list.go"); err != nil {
+			e.Missing("list.go", err)
+		} else if fd := f.Func("List", "FilterInRange"); fd == nil {
+			e.Missing("filterInRangeStmts", "FilterInRange not found")
+		} else {
+			var stmts []string
+			for _, st := range fd.Body.List {
+				switch x := st.(type) {
+				case *ast.RangeStmt:
+					stmts = append(stmts, "for "+f.Render(x.Value)+" := range "+f.Render(x.X)+" { "+renderBody(f, x.Body)+" }")
+				default:
+					stmts = append(stmts, f.Render(st))
+				}
+			}
+			e.Strs("filterInRangeStmts", stmts, "fracmanager.List.FilterInRange: statements in source order")
+		}
+
 		// ---- fracFetch recovers panics into an error (one fraction's panic fails the whole batch)
 		if f, err := r.Load("fracmanager/fetcher.go"); err != nil {
 			e.Missing("fetcher.go", err)
@@ -177,6 +195,52 @@ func main() {
 				})
 				e.Bool("fracFetchRecovers", rec, "fracmanager.fracFetch defers a recover() that turns a panic into the batch error")
 			}
+			// sortIDs: works on a copy, the range comes from the ends of the SORTED list
+			if fd := f.Func("", "sortIDs"); fd == nil {
+				e.Missing("sortIDsStmts", "sortIDs not found")
+			} else {
+				var stmts []string
+				ast.Inspect(fd.Body, func(n ast.Node) bool {
+					switch x := n.(type) {
+					case *ast.AssignStmt:
+						stmts = append(stmts, f.Render(x))
+					case *ast.IfStmt:
+						stmts = append(stmts, "if "+f.Render(x.Cond))
+					case *ast.ExprStmt:
+						stmts = append(stmts, f.Render(x))
+					case *ast.ReturnStmt:
+						stmts = append(stmts, f.Render(x))
+					}
+					return true
+				})
+				e.Strs("sortIDsStmts", stmts, "fracmanager.sortIDs: statements in source order")
+			}
+			// groupIDsByFraction: where the candidate list comes from and which list elements it overwrites
+			if fd := f.Func("", "groupIDsByFraction"); fd == nil {
+				e.Missing("groupIDsListWrites", "groupIDsByFraction not found")
+			} else {
+				var ws []string
+				ast.Inspect(fd.Body, func(n ast.Node) bool {
+					if a, ok := n.(*ast.AssignStmt); ok {
+						s := f.Render(a)
+						if strings.Contains(s, "FilterInRange") {
+							ws = append(ws, s)
+						}
+						for _, l := range a.Lhs {
+							if ix, ok := l.(*ast.IndexExpr); ok {
+								if t := f.Render(ix.X); t == "fracsOut" || t == "fracsIn" {
+									ws = append(ws, s)
+								}
+							}
+						}
+					}
+					if r, ok := n.(*ast.ReturnStmt); ok {
+						ws = append(ws, f.Render(r))
+					}
+					return true
+				})
+				e.Strs("groupIDsListWrites", ws, "fracmanager.groupIDsByFraction: origin of the candidate list, writes into fraction lists, return")
+			}
 			if fd := f.Func("Fetcher", "FetchDocs"); fd == nil {
 				e.Missing("fetchDocsCalls", "FetchDocs not found")
 			} else {
@@ -186,7 +250,7 @@ func main() {
 				e.Strs("fetchDocsCalls", calls, "Fetcher.FetchDocs: reversPos map, grouping, per-fraction fetch, result slice - call order")
 			}
 		}
-	}, "storeapi/docs_stream.go", "frac/sealed_index.go", "fracmanager/fetcher.go", "seq/doc_pos.go", "conf/conf.go", "consts/consts.go")
+	}, "storeapi/docs_stream.go", "frac/sealed_index.go", "fracmanager/fetcher.go", "fracmanager/list.go", "seq/doc_pos.go", "conf/conf.go", "consts/consts.go")
 }
 
 func renderBody(f *lib.File, b *ast.BlockStmt) string {
